@@ -39,7 +39,11 @@ ASSUMPTIONS = [
 ]
 BUDGET_S = {"quick": 150, "thorough": 1500}
 
-CONFIG = {"dry": {"enabled": True, "min_duplicate_lines": 3}}
+# per-language overrides: a verdict must depend on the file's own language, never on which language the object saw first
+CONFIG = {"dry": {"enabled": True, "min_duplicate_lines": 3},
+          "nesting": {"max_nesting_depth": 5, "python": {"max_nesting_depth": 1}, "typescript": {"max_nesting_depth": 2}},
+          "srp": {"max_methods": 9, "python": {"max_methods": 7}, "typescript": {"max_methods": 8}},
+          "magic-numbers": {"allowed_numbers": [0, 1, 2], "python": {"allowed_numbers": [0, 1, 2, 41]}, "typescript": {"allowed_numbers": [0, 1, 2, 43]}}}
 PATHS = ["a.py", "b.py", "c.py", "pkg/d.py", "e.ts", "pkg/f.ts"]
 CROSS = ("dry.", "stringly-typed.")
 
@@ -69,6 +73,11 @@ def content(path, variant):
         else:
             extra += ["", f"function gate_67_{tag}(env_67) {{", '    if (env_67 === "stage67") {', f"        return go_67_{tag}(env_67);", '    } else if (env_67 === "prod67") {',
                       f"        return stop_67_{tag}(env_67);", "    }", "    return null;", "}"]
+    # constructs that sit between the per-language limits of CONFIG (flagged under one language's settings only)
+    if lang == "py":
+        extra += ["", f"def mid_{tag}(a):", "    if a:", "        for i in a:", f"            use_mid_{tag}(i, 41, 43)"]
+    else:
+        extra += ["", f"function mid_{tag}(a) {{", "    if (a) {", "        for (const i of a) {", f"            useMid_{tag}(i, 41, 43);", "        }", "    }", "}"]
     # identical local names in many files, bound to different kinds of values: per-file analysis state that is keyed by
     # identifier names (and not reset) would make one file's verdict depend on which files were seen before it
     if lang == "py":
